@@ -207,7 +207,7 @@ def _session_abuse(ctx, ch, L, world, mon, history):
 				g.description = 'edited'
 	try:
 		modify()
-		steps = ['flush', 'autoflush_query', 'commit', 'begin_block', 'rollback_then_modify', 'close_then_modify']
+		steps = ['flush', 'autoflush_query', 'commit', 'begin_block', 'rollback_then_modify', 'close_then_modify', 'direct_dml']
 		n = ch.int(1, 6, L + '.nsteps')
 		for j in range(n):
 			st = ch.pick(steps, f'{L}.st{j}')
@@ -230,6 +230,27 @@ def _session_abuse(ctx, ch, L, world, mon, history):
 				else:
 					mon.after(desc + ' commit()', history)   # a write may already be on disk: report that first
 					ctx.violation('C18.commit-accepted', f'{desc}: commit() on the default session did not raise', detail=f'session class {type(s).__name__}')
+			elif st == 'direct_dml':
+				# statements sent straight through the session (Query.update / bulk save / execute): they are not a flush of
+				# pending changes and do reach SQLite inside the session's transaction - which is never committed. Only the
+				# bytes are judged for this step, after the transaction has been rolled back.
+				try:
+					how = ch.pick(['query_update', 'bulk_save', 'execute_update'], f'{L}.dml{j}')
+					if how == 'query_update':
+						s.query(Taxon).filter(Taxon.rank == 'species').update({'description': 'bulk edited'}, synchronize_session=False)
+					elif how == 'bulk_save':
+						s.bulk_save_objects([Genome(key=f'gvsim/bulk{j}', description='bulk')])
+					else:
+						from sqlalchemy import text
+						s.execute(text("UPDATE genomes SET description = 'raw edit' WHERE id = 1"))
+				except Exception:
+					pass
+				try:
+					s.rollback()
+				except Exception:
+					pass
+				sqlmon.drain()
+				ctx.probe('direct_dml_through_default_session')
 			elif st in ('rollback_then_modify', 'close_then_modify'):
 				# connection turnover: whatever made the session read-only must survive a rollback / close
 				try:
@@ -334,6 +355,14 @@ def scenario(ctx):
 	world = R.build(ctx, rng, kspec, ch.int(3, 15, 'n_ref'))
 	pool = Q.build(ctx, random.Random(ch.subseed('pool')), world, ch.int(2, 5, 'n_pool'))
 	ctx.log('world', k=kspec.k, prefix=kspec.prefix_str, n_ref=len(world.genomes), id_attr=world.id_attr, gs=blob_hash(open(world.gs, 'rb').read()))
+	if ch.flip(0.25, 'wal_mode'):
+		# a genome database distributed in WAL journal mode (legal; the mode is stored in the file header)
+		import sqlite3
+		con = sqlite3.connect(world.gdb)
+		con.execute('PRAGMA journal_mode=WAL')
+		con.commit()
+		con.close()
+		ctx.probe('wal_mode_database')
 	omp.set_threads(ch.int(1, 8, 'initial_threads'))
 	mon = Monitor(ctx, world)
 	n_ops = ch.int(1, 25 if ctx.tier == 'thorough' else 10, 'n_ops')
